@@ -38,7 +38,7 @@ def check(run, replay):
                          "holds or fails independently; non-trivial = at least one suppression consulted, distinct case.")
 
     vlib.ensure_repo_build()
-    ok = run.prove()
+    ok = run.prove(extra_targets=["theories/Supp/Run.vo"])
     model = vlib.build_model(PID) if ok or os.path.exists(os.path.join(vlib.COQ, "theories/Supp/Run.vo")) else None
     if not ok:
         run.violation("proof:" + PID, "Properties_C23.vo does not build: " + str(run.proof_error())[:300],
